@@ -1,0 +1,76 @@
+//go:build verif
+
+package kgo
+
+// Verification contracts (comments only), read by /verif/govc. Compiled only with -tags verif; no code.
+
+// ---- C31: the poll / rebalance gate excludes, under every interleaving of its critical sections ----
+// consumer.pollWaitState packs the number of in-flight polls (low 32 bits) and the number of rebalances that
+// have registered (high 32 bits); it is only touched under pollWaitMu.
+//
+// Ghost counters (total over all threads, each thread knows its own contribution):
+//   waiting - rebalancers that registered themselves in the high half but are still blocked in
+//             waitAndAddRebalance*;
+//   active  - rebalancers that returned from waitAndAddRebalance* and have not yet called unaddRebalance:
+//             the window in which a revocation callback / assignment invalidation runs.
+//
+// Monitor invariant (holds whenever pollWaitMu is free, for all schedules):
+//   [count]     high half == active + waiting;
+//   [exclusion] active > 0  ==>  low half == 0  -  while any rebalance is in its window, no poll that passed the
+//               gate is outstanding; together with waitAndAddPoller's code (a poller increments only when the low
+//               half was already > 0, which by [exclusion] means active == 0, or after it waited for the high half
+//               to be 0) no new poller enters either.
+//@ monitor (c *consumer) pollWaitMu
+//@   prop C31
+//@   cond pollWaitC
+//@   counter waiting, active
+//@   protects c.pollWaitState
+//@   invariant [count] c.pollWaitState >> 32 == active + waiting
+//@   invariant [bounded] active <= 0xffffffff && waiting <= 0xffffffff
+//@   invariant [exclusion] active > 0 ==> c.pollWaitState & 0xffffffff == 0
+
+// A poller passes the gate. Assumption (listed): fewer than 2^32-1 polls are in flight, so the increment cannot
+// carry into the rebalance count.
+//@ func (c *consumer) waitAndAddPoller()
+//@   prop C31
+//@   mode bv
+//@   loop 0 invariant mine(waiting) == 0 && mine(active) == 0
+//@   site store pollWaitState#0 assume prev & 0xffffffff < 0xffffffff
+//@   site store pollWaitState#0 assert [enters-only-without-active-rebalance] active == 0
+//@   site store pollWaitState#0 assert [increments-low-half] val == prev + 1
+//@   site store pollWaitState#0 assert [first-poller-waits-for-pending-rebalances] prev & 0xffffffff == 0 ==> prev >> 32 == 0
+
+// A poller leaves: the low half is decremented unless AllowRebalance already cleared it; the high half is never
+// borrowed from.
+//@ func (c *consumer) unaddPoller()
+//@   prop C31
+//@   mode bv
+//@   site store pollWaitState#0 assert [no-borrow] val >> 32 == prev >> 32 && prev & 0xffffffff > 0 && val == prev - 1
+
+// AllowRebalance clears only the low half.
+//@ func (c *consumer) allowRebalance()
+//@   prop C31
+//@   mode bv
+//@   site store pollWaitState#0 assert [clears-low-half-only] val == prev & 0xffffffff00000000
+
+// A rebalance registers itself (waiting), blocks while polls are in flight, and returns in its window (active)
+// with no poll in flight. Assumption (listed): fewer than 2^32-2 rebalancers.
+//@ func (c *consumer) waitAndAddRebalanceMaybeSignal(signal bool)
+//@   prop C31
+//@   mode bv
+//@   site store pollWaitState#0 assume prev >> 32 < 0xfffffffe
+//@   site store pollWaitState#0 ghost inc waiting
+//@   loop 0 invariant mine(waiting) == 1 && mine(active) == 0
+//@   site call Unlock#0 assert [window-opens-with-no-poll-in-flight] c.pollWaitState & 0xffffffff == 0
+//@   site call Unlock#0 ghost dec waiting; inc active
+//@   ensures [token] c.cl.cfg.blockRebalanceOnPoll ==> mine(active) == 1
+
+// The rebalance window closes. Caller protocol (listed as an assumption): the calling thread is inside its
+// window, i.e. it returned from waitAndAddRebalance* and has not called unaddRebalance since.
+//@ func (c *consumer) unaddRebalance()
+//@   prop C31
+//@   mode bv
+//@   token active 1
+//@   site store pollWaitState#0 ghost dec active
+//@   site store pollWaitState#0 assert [no-underflow] prev >> 32 >= 1
+//@   ensures [token] c.cl.cfg.blockRebalanceOnPoll ==> mine(active) == 0
